@@ -5,7 +5,7 @@
 # On success stores /verif/seeded/<seed-id>/{patch.diff,demo.rs,notes.md,meta.json}.
 set -u
 id="$1"; prop="$2"; patch="$3"; demo="$4"; notes="${5:-}"
-WT=/tmp/confirm_wt
+WT=${WT:-/tmp/confirm_wt}
 if [ ! -d $WT ]; then git -C /repo worktree add -q --detach $WT HEAD && cp -r /repo/target $WT/target; fi
 cd $WT && git checkout -q --detach $(git -C /repo rev-parse HEAD) && git checkout -- . && rm -f join/tests/demo.rs
 git apply "$patch" || { echo "$id: PATCH DOES NOT APPLY"; exit 1; }
@@ -27,7 +27,7 @@ if [ "$okp" = 1 ] && [ "$fw" = 1 ] && [ "$pw" = 1 ]; then
 import json,sys
 id,prop,suite,w,wo=sys.argv[1:6]
 json.dump({"id":id,"breaks_property":prop,"base_commit":"9ace05e","confirmed":{"repo_suite_with_change":suite,"demo_with_change":w.strip(),"demo_without_change":wo.strip(),
- "how":"tools/confirm_mutant.sh in scratch worktree /tmp/confirm_wt: git apply patch; cargo test --workspace --offline --lib --tests; demo copied to join/tests/demo.rs and run with and without the patch"},
+ "how":"tools/confirm_mutant.sh in a scratch worktree: git apply patch; cargo test --workspace --offline --lib --tests; demo copied to join/tests/demo.rs and run with and without the patch"},
  "needs_to_manifest":"see notes.md","detected_by":[]},open("/verif/seeded/%s/meta.json"%id,"w"),indent=1)
 PY
   echo "$id: CONFIRMED"
